@@ -3,6 +3,7 @@
 use serde_json::{json, Value as J};
 use std::io::{BufRead, Write};
 
+pub mod codec;
 pub mod frag;
 pub mod milud;
 
@@ -66,6 +67,7 @@ pub fn main() {
         "frag" => frag::main(rest),
         "frag-grid" => frag::grid(rest),
         "frag-trace" => frag::trace(rest),
+        "codec" => codec::main(rest),
         "parse" => milud::parse_main(rest),
         "types" => milud::types_main(rest),
         x => {
